@@ -60,12 +60,13 @@ func (r *c14Ref) copyOf() *c14Ref {
 	return &c
 }
 
-// c14Val: a value of symbolic kind (nil, int with symbolic content, pointer). The kind is a lazily
+// c14Val: a value of symbolic kind (nil, int with symbolic content, pointer, nested map[string]any). The kind is a lazily
 // forked choice: the store never looks into values, so it stays unforked unless something does.
 func c14Val(label string) any {
 	k := vNondet[int](label + ".kind")
-	vAssume(0 <= k && k < 3)
-	return vPick(k, nil, vNondet[int](label+".int"), &vTok{id: 5})
+	vAssume(0 <= k && k < 4)
+	// ... or a nested map with a symbolic key of its own: to the store it is a value like any other
+	return vPick(k, nil, vNondet[int](label+".int"), &vTok{id: 5}, map[string]any{vNondet[string](label + ".inner"): 7})
 }
 
 // c14Agree: the store's observable abstraction equals the reference's
